@@ -14,13 +14,14 @@ EXTENDS Eval, Json, IOUtils, TLC
 Recs == ndJsonDeserialize(IOEnv.TRACE)
 Field(r, f, default) == IF f \in DOMAIN r THEN r[f] ELSE default
 EnvOfRec(r) ==
-  [handlers |-> [h \in DOMAIN r.handlers |-> [ret |-> r.handlers[h], act |-> "none"]],
+  [handlers |-> [h \in DOMAIN r.handlers |-> [ret |-> r.handlers[h], act |-> "none",
+                                               copy |-> IF "copies" \in DOMAIN r /\ h \in DOMAIN r.copies THEN r.copies[h] ELSE <<>>]],
    gfun |-> Field(r, "gfun", <<>>), gprefix |-> Field(r, "gprefix", <<>>), gpostfix |-> Field(r, "gpostfix", <<>>),
    ginfix |-> Field(r, "ginfix", <<>>), fault |-> r.fault]
-\* observed context entries: <<"var", v>> or <<"fn", "same">> (the function installed under that name is still there)
+\* observed context entries: <<"var", v>> or <<"fn", h>> (which installed handler is bound there)
 ObsCtxEq(spec, obs) == /\ DOMAIN spec = DOMAIN obs
                        /\ \A x \in DOMAIN spec : IF spec[x][1] = "var" THEN obs[x][1] = "var" /\ VEq(spec[x][2], obs[x][2])
-                                                 ELSE obs[x][1] = "fn" /\ obs[x][2] = "same"
+                                                 ELSE obs[x][1] = "fn" /\ obs[x][2] = spec[x][2]
 LogEq(spec, obs) == /\ Len(spec) = Len(obs)
                     /\ \A i \in 1..Len(spec) : /\ spec[i][1] = obs[i][1] /\ Len(spec[i][2]) = Len(obs[i][2])
                                                /\ \A j \in 1..Len(spec[i][2]) : VEq(spec[i][2][j], obs[i][2][j])
